@@ -4,7 +4,7 @@ import BreezyVerif.Model.C04
 C04 driver.
 
   commit <chk T|F> <names> <files> <torn> <viewNames> <viewAtLoad> <counts> <tmp0,new0,tmp1,new1>
-  pack   <chk T|F> <names> <files> <torn> <viewNames> <viewAtLoad> <optimal T|F> <clean T|F> <tmp1,new1>
+  pack   <chk T|F> <names> <files> <torn> <viewNames> <viewAtLoad> <hint ~|names> <optimal T|F> <clean T|F> <tmp1,new1>
 
 names / viewNames / viewAtLoad = comma separated pack numbers (`-` = none)
 files / torn = comma separated `<d><stem>.<ext>` with d ∈ u p i o (`-` = none)
@@ -88,13 +88,14 @@ def handle : List String → String
       let d : Disk := ⟨names, files, torn, false⟩
       showRun d (commitOps chk d ⟨vn, va⟩ counts t0 n0 t1 n1)
     | _, _, _, _, _, _, _, _ => "bad-op"
-  | ["pack", chk, names, files, torn, vn, va, optimal, clean, fresh] =>
+  | ["pack", chk, names, files, torn, vn, va, hint, optimal, clean, fresh] =>
     match parseBool chk, parseNatList names, parseFiles files, parseFiles torn, parseNatList vn, parseNatList va,
+          (if hint == "~" then some none else (parseNatList hint).map some),
           parseBool optimal, parseBool clean, parseNatList fresh with
-    | some chk, some names, some files, some torn, some vn, some va, some optimal, some clean, some [t1, n1] =>
+    | some chk, some names, some files, some torn, some vn, some va, some hint, some optimal, some clean, some [t1, n1] =>
       let d : Disk := ⟨names, files, torn, false⟩
-      showRun d (packOps chk d ⟨vn, va⟩ optimal clean t1 n1)
-    | _, _, _, _, _, _, _, _, _ => "bad-op"
+      showRun d (packOps chk d ⟨vn, va⟩ hint optimal clean t1 n1)
+    | _, _, _, _, _, _, _, _, _, _ => "bad-op"
   | ["plan", counts] =>
     match parseCounts counts with
     | some c => showPlan (planAutopack c)
